@@ -144,7 +144,7 @@ def run_case(case) -> Result:
     p2 = p - 0.23 * np.roll(q, 1) + 0.07
     if model.con is not None and zoo.gram_ill_conditioned(model.con.jac(q2), model.Minv_const):
         return res
-    if cls == "riem_softabs" and np.min(np.abs(np.linalg.eigvalsh(model.dens.hess(q2)))) < 1e-6:
+    if cls == "riem_softabs" and False:  # (zero Hessian eigenvalues are inside the domain since the SoftAbs repair)
         return res
     for (nq, np_, what) in ((q2, p, "pos"), (q2, p2, "mom")):
         if what == "pos":
